@@ -4,3 +4,9 @@ import PycommProps.C02
 #print axioms Pycomm.C02.rmw_in_range
 #print axioms Pycomm.C02.bool_write_aligned
 #print axioms Pycomm.C02.write_fragments_tile
+#print axioms Pycomm.C02.write_e2e
+#print axioms Pycomm.C02.splice_frame
+#print axioms Pycomm.C02.written_frame
+#print axioms Pycomm.C02.write_then_read
+#print axioms Pycomm.C02.write_frag_e2e
+#print axioms Pycomm.C02.rmw_e2e
